@@ -42,10 +42,14 @@ func verifSelect(full []float64, dims, start, count, stride, block []uint64) (ou
 
 // C09: hyperslab on a contiguous / chunked float64 dataset. dims forked (<=4 / <=3), count and block forked
 // small, start and stride symbolic (bounded by assumption to < 6 so that offsets stay enumerable).
-func verifHyperslabScript(chunked bool, rank int) {
-	maxExt := 4
-	if rank == 2 {
-		maxExt = 3
+func verifHyperslabScript(chunked bool, rank int) { verifHyperslabScriptExt(chunked, rank, 0) }
+
+func verifHyperslabScriptExt(chunked bool, rank, maxExt int) {
+	if maxExt == 0 {
+		maxExt = 4
+		if rank == 2 {
+			maxExt = 3
+		}
 	}
 	dims := make([]uint64, rank)
 	total := 1
@@ -77,9 +81,13 @@ func verifHyperslabScript(chunked bool, rank int) {
 	stride := make([]uint64, rank)
 	block := make([]uint64, rank)
 	for i := 0; i < rank; i++ {
-		start[i] = uint64(vrt.Choice(4))
+		nStart, nStride := 4, 3
+		if maxExt == 2 {
+			nStart, nStride = 2, 2 // small variant: start <= 1, stride <= 2
+		}
+		start[i] = uint64(vrt.Choice(nStart))
 		count[i] = uint64(1 + vrt.Choice(2))
-		stride[i] = uint64(1 + vrt.Choice(3))
+		stride[i] = uint64(1 + vrt.Choice(nStride))
 		block[i] = uint64(1 + vrt.Choice(2))
 		vrt.Assume(block[i] <= stride[i]) // blocks must not overlap
 	}
@@ -107,6 +115,9 @@ func VerifH_C09_api_contig_2d() { verifHyperslabScript(false, 2) }
 func VerifH_C09_api_chunked_1d() { verifHyperslabScript(true, 1) }
 func VerifH_C09_api_chunked_2d_thorough() { verifHyperslabScript(true, 2) }
 
+// quick tier: extents <= 2 (selections spanning two chunks in either dimension)
+func VerifH_C09_api_chunked_2d_small() { verifHyperslabScriptExt(true, 2, 2) }
+
 // ReadSlice: start/count fully symbolic 64-bit: accepted iff start+count <= dim without wrap-around.
 func VerifH_C09_api_readslice_bounds() {
 	data := []float64{1, 2, 3, 4}
@@ -130,3 +141,94 @@ func VerifH_C09_api_readslice_bounds() {
 	vrt.Covered("readslice-compared")
 	_ = f.Close()
 }
+
+// chunk iterator: every stored chunk is visited exactly once and the pieces tile the full read exactly
+func verifChunkIterator(rank int) {
+	maxExt := 4
+	if rank == 2 {
+		maxExt = 3
+	}
+	dims := make([]uint64, rank)
+	chunk := make([]uint64, rank)
+	total := 1
+	nchunks := 1
+	for i := range dims {
+		dims[i] = uint64(1 + vrt.Choice(maxExt))
+		chunk[i] = uint64(1 + vrt.Choice(2))
+		if chunk[i] > dims[i] {
+			chunk[i] = dims[i]
+		}
+		total *= int(dims[i])
+		nchunks *= int((dims[i] + chunk[i] - 1) / chunk[i])
+	}
+	data := make([]float64, total)
+	for i := range data {
+		data[i] = math.Float64frombits(vrt.U64())
+	}
+	f, d := verifWriteReopen("c09i.h5", 2, Float64, dims, data, WithChunkDims(chunk))
+	full, err := d.Read()
+	vrt.AssertNoErr(err, "full-read-ok")
+	vrt.Assert(len(full) == total, "full-shape")
+	it, err := d.ChunkIterator()
+	vrt.AssertNoErr(err, "iterator-ok")
+	vrt.Assert(it.Total() == nchunks, "iterator-counts-every-chunk")
+	covered := make([]int, total)
+	seen := map[uint64]bool{}
+	visits := 0
+	for it.Next() {
+		visits++
+		cc := it.ChunkCoords()
+		vrt.Assert(len(cc) == rank, "chunk-coords-rank")
+		key := uint64(0)
+		for i := 0; i < rank; i++ {
+			key = key*16 + cc[i]
+		}
+		vrt.Assert(!seen[key], "chunk-visited-once")
+		seen[key] = true
+		piece, err := it.Chunk()
+		vrt.AssertNoErr(err, "chunk-read-ok")
+		p, ok := piece.([]float64)
+		vrt.Assert(ok, "chunk-type")
+		// extents of this piece
+		ext := make([]uint64, rank)
+		n := 1
+		for i := 0; i < rank; i++ {
+			s := cc[i] * chunk[i]
+			vrt.Assert(s < dims[i], "chunk-inside-dataset")
+			ext[i] = chunk[i]
+			if s+ext[i] > dims[i] {
+				ext[i] = dims[i] - s
+			}
+			n *= int(ext[i])
+		}
+		vrt.Assert(len(p) == n, "chunk-piece-size")
+		if len(p) != n {
+			continue
+		}
+		if rank == 1 {
+			for a := 0; a < int(ext[0]); a++ {
+				g := int(cc[0]*chunk[0]) + a
+				covered[g]++
+				vrt.Assert(math.Float64bits(p[a]) == math.Float64bits(full[g]), "chunk-piece-equals-full-read")
+			}
+		} else {
+			for a := 0; a < int(ext[0]); a++ {
+				for b := 0; b < int(ext[1]); b++ {
+					g := (int(cc[0]*chunk[0])+a)*int(dims[1]) + int(cc[1]*chunk[1]) + b
+					covered[g]++
+					vrt.Assert(math.Float64bits(p[a*int(ext[1])+b]) == math.Float64bits(full[g]), "chunk-piece-equals-full-read")
+				}
+			}
+		}
+	}
+	vrt.AssertNoErr(it.Err(), "iterator-no-error")
+	vrt.Assert(visits == nchunks, "every-chunk-visited")
+	for g := range covered {
+		vrt.Assert(covered[g] == 1, "pieces-tile-the-dataset")
+	}
+	vrt.Covered("iterator-compared")
+	_ = f.Close()
+}
+
+func VerifH_C09_api_chunk_iterator_1d() { verifChunkIterator(1) }
+func VerifH_C09_api_chunk_iterator_2d() { verifChunkIterator(2) }
